@@ -302,14 +302,11 @@ func drive(id string, p Prop, tier string) int {
 				planRuns += o.Runs
 				planNT += o.Nontrivial
 				for _, v := range o.Violations {
-					viols = append(viols, viol{plan: pl, rec: v, wkr: res.w})
+					viols = append(viols, viol{plan: pl, rec: v, wkr: res.w, idx: v.Idx})
 				}
 			}
 		}
 		a.perPlan[pl.Name] = map[string]interface{}{"workers": nw, "race_build": pl.Race, "runs": planRuns, "nontrivial": planNT, "wall_s": round2(time.Since(tp).Seconds()), "cold_processes": pl.Cold}
-	}
-	if a.detMismatch > 0 {
-		return trouble("determinism spot check failed: %d of %d re-executed cases gave a different event fingerprint", a.detMismatch, a.detChecked)
 	}
 
 	// 3. violations: minimise, confirm in a fresh process, report
@@ -322,35 +319,43 @@ func drive(id string, p Prop, tier string) int {
 		}
 		seenClass[v.rec.Class] = true
 		caseFile := v.rec.CaseFile
+		confirm := func(file string) bool {
+			if v.race {
+				return runProc(5*time.Minute, raceEnv(filepath.Join(e.work, "confirm")), e.race, "replay", id, file).code == 66
+			}
+			bin, envv := e.plain, []string{"GOMAXPROCS=1"}
+			if v.plan.Race {
+				bin, envv = e.race, raceEnv(filepath.Join(e.work, "confirm"))
+			}
+			return runProc(5*time.Minute, envv, bin, "replay", id, file).code == 1
+		}
 		if v.race {
 			caseFile = filepath.Join(e.work, fmt.Sprintf("racecase-%d.json", reported))
 			r := runProc(2*time.Minute, []string{"GOMAXPROCS=1"}, e.plain, "emit", id, "-runseed", fmt.Sprint(v.rec.RunSeed), "-variant", fmt.Sprint(v.plan.Variant), "-size", fmt.Sprint(v.plan.Size), "-plan", v.plan.Name, "-out", caseFile)
 			if r.code != 0 {
 				return trouble("emit of racing run %d failed: %s %s", v.rec.RunSeed, tail(r.out, 1000), tail(r.err, 2000))
 			}
-			rr := runProc(3*time.Minute, raceEnv(filepath.Join(e.work, "confirm")), e.race, "replay", id, caseFile)
-			if rr.code != 66 {
-				// the report may need process state built by earlier runs: fall back to the
-				// whole prefix of that worker as one multi-case replay file
-				multi := filepath.Join(e.work, fmt.Sprintf("racemulti-%d.json", reported))
-				var cases []json.RawMessage
-				for i := 0; i <= v.idx; i++ {
-					one := filepath.Join(e.work, "one.json")
-					pi := planIndex(plans, v.plan.Name)
-					r := runProc(2*time.Minute, []string{"GOMAXPROCS=1"}, e.plain, "emit", id, "-runseed", fmt.Sprint(runSeed(mix(e.seed, uint64(pi)), v.wkr, i)), "-variant", fmt.Sprint(v.plan.Variant), "-size", fmt.Sprint(v.plan.Size), "-plan", v.plan.Name, "-out", one)
-					if r.code != 0 {
-						return trouble("emit failed: %s", tail(r.err, 2000))
-					}
-					b, _ := os.ReadFile(one)
-					cases = append(cases, b)
+		}
+		if caseFile != "" && !confirm(caseFile) {
+			// the violation may need process state built by earlier runs of that worker: fall
+			// back to the whole prefix as one multi-case replay file (explicit cases, no PRNG)
+			multi := filepath.Join(e.work, fmt.Sprintf("multi-%d.json", reported))
+			var cases []json.RawMessage
+			pi := planIndex(plans, v.plan.Name)
+			for i := 0; i <= v.idx; i++ {
+				one := filepath.Join(e.work, "one.json")
+				r := runProc(2*time.Minute, []string{"GOMAXPROCS=1"}, e.plain, "emit", id, "-runseed", fmt.Sprint(runSeed(mix(e.seed, uint64(pi)), v.wkr, i)), "-variant", fmt.Sprint(v.plan.Variant), "-size", fmt.Sprint(v.plan.Size), "-plan", v.plan.Name, "-out", one)
+				if r.code != 0 {
+					return trouble("emit failed: %s", tail(r.err, 2000))
 				}
-				writeJSON(multi, map[string]interface{}{"multi": cases})
-				rr = runProc(5*time.Minute, raceEnv(filepath.Join(e.work, "confirm")), e.race, "replay", id, multi)
-				if rr.code != 66 {
-					return trouble("race report of run seed %d (plan %s) did not reproduce from its replay file - determinism bug in the machinery\nreport was:\n%s", v.rec.RunSeed, v.plan.Name, v.rec.Detail)
-				}
-				caseFile = multi
+				b, _ := os.ReadFile(one)
+				cases = append(cases, b)
 			}
+			writeJSON(multi, map[string]interface{}{"multi": cases})
+			if !confirm(multi) {
+				return trouble("violation of class %s (run seed %d, plan %s) reproduces neither from its case nor from the worker's run prefix - determinism bug in the machinery\n%s", v.rec.Class, v.rec.RunSeed, v.plan.Name, v.rec.Detail)
+			}
+			caseFile = multi
 		}
 		if caseFile == "" {
 			return trouble("violation without a case file: %+v", v.rec)
@@ -370,7 +375,11 @@ func drive(id string, p Prop, tier string) int {
 			fmt.Printf("NOTE: minimisation failed (%d), reporting the unminimised case\n%s\n", sr.code, tail(sr.err, 1000))
 			minFile = caseFile
 		}
-		// confirm in a fresh process
+		// confirm in a fresh process; an unconfirmed minimised case falls back to the original
+		if !confirm(minFile) {
+			fmt.Printf("NOTE: the minimised case did not fail again in a fresh process; reporting the unminimised case\n")
+			minFile = caseFile
+		}
 		var cr procResult
 		if v.race {
 			cr = runProc(5*time.Minute, raceEnv(filepath.Join(e.work, "final")), e.race, "replay", id, minFile)
@@ -383,7 +392,7 @@ func drive(id string, p Prop, tier string) int {
 		}
 		okc := (v.race && cr.code == 66) || (!v.race && cr.code == 1)
 		if !okc {
-			return trouble("minimised case of class %s does not fail again in a fresh process (exit %d) - determinism bug in the machinery\n%s", v.rec.Class, cr.code, tail(cr.out, 2000))
+			return trouble("case of class %s does not fail again in a fresh process (exit %d) - determinism bug in the machinery\n%s", v.rec.Class, cr.code, tail(cr.out, 2000))
 		}
 		rpDir := filepath.Join(e.verif, "replays")
 		if d := os.Getenv("SIM_REPLAY_DIR"); d != "" {
@@ -464,6 +473,11 @@ func drive(id string, p Prop, tier string) int {
 	fmt.Printf("DONE property=%s tier=%s runs=%d distinct_nontrivial=%d discarded=%v known_hits=%v violations=%d wall=%.1fs\n", id, tier, a.runs, fps, a.discards, a.known, reported, wall)
 	if reported > 0 {
 		return 1
+	}
+	if a.detMismatch > 0 {
+		// no violation was reported, yet re-executing a case in the same process gave another
+		// event fingerprint: the machinery (or the library) is not a function of the case
+		return trouble("determinism spot check failed: %d of %d re-executed cases gave a different event fingerprint", a.detMismatch, a.detChecked)
 	}
 	if a.runs == 0 {
 		return trouble("no run was executed")
@@ -623,6 +637,11 @@ func onlyHarnessFrames(rep string) bool {
 
 // ---- shrink -------------------------------------------------------------------------------
 
+// shrinkCmd delta-debugs a failing case. Candidates are evaluated in this process (fast);
+// every ACCEPTED candidate is confirmed in a fresh process, because a violation may have
+// tainted process-wide state (then everything "fails" here). If a confirmation fails the
+// minimiser switches to one fresh process per candidate for good. With -racebin every
+// evaluation is a fresh -race process (exit 66 = fails).
 func shrinkCmd(id string, p Prop, in, out string, args []string) int {
 	maxtime := time.Minute
 	class := ""
@@ -642,32 +661,50 @@ func shrinkCmd(id string, p Prop, in, out string, args []string) int {
 		fmt.Fprintln(os.Stderr, err)
 		return 2
 	}
-	// multi-case files: only drop leading cases
-	var multi struct {
-		Multi []json.RawMessage `json:"multi"`
-	}
+	self, _ := os.Executable()
 	tmp, _ := os.MkdirTemp("", "shrink")
 	defer os.RemoveAll(tmp)
 	deadline := time.Now().Add(maxtime)
 	n := 0
+	// failsFile: fresh process
 	failsFile := func(path string) bool {
 		n++
-		r := runProc(2*time.Minute, raceEnv(filepath.Join(tmp, fmt.Sprintf("r%d", n))), racebin, "replay", id, path)
-		return r.code == 66
+		if racebin != "" {
+			r := runProc(2*time.Minute, raceEnv(filepath.Join(tmp, fmt.Sprintf("r%d", n))), racebin, "replay", id, path)
+			return r.code == 66
+		}
+		r := runProc(2*time.Minute, []string{"GOMAXPROCS=1"}, self, "replay", id, path)
+		return r.code == 1 && (class == "" || strings.Contains(r.out, "class="+class+" "))
+	}
+	var multi struct {
+		Multi []json.RawMessage `json:"multi"`
 	}
 	if json.Unmarshal(raw, &multi) == nil && len(multi.Multi) > 0 {
+		// several cases in one process: drop leading cases while it still fails
 		cur := multi.Multi
 		for len(cur) > 1 && time.Now().Before(deadline) {
-			cand := cur[1:]
-			f := filepath.Join(tmp, "m.json")
-			writeJSON(f, map[string]interface{}{"multi": cand})
-			if racebin != "" && failsFile(f) {
-				cur = cand
-			} else {
+			dropped := false
+			for _, k := range []int{len(cur) / 2, 1} {
+				if k < 1 || k >= len(cur) {
+					continue
+				}
+				f := filepath.Join(tmp, "m.json")
+				writeJSON(f, map[string]interface{}{"multi": cur[k:]})
+				if failsFile(f) {
+					cur = cur[k:]
+					dropped = true
+					break
+				}
+			}
+			if !dropped {
 				break
 			}
 		}
-		writeJSON(out, map[string]interface{}{"multi": cur})
+		if len(cur) == 1 {
+			os.WriteFile(out, cur[0], 0644)
+		} else {
+			writeJSON(out, map[string]interface{}{"multi": cur})
+		}
 		return 0
 	}
 	c, err := p.Decode(raw)
@@ -675,17 +712,18 @@ func shrinkCmd(id string, p Prop, in, out string, args []string) int {
 		fmt.Fprintln(os.Stderr, err)
 		return 2
 	}
-	fails := func(c Case) bool {
-		if racebin != "" {
-			f := filepath.Join(tmp, "c.json")
-			writeJSON(f, c)
-			return failsFile(f)
-		}
+	subOnly := racebin != ""
+	failsSub := func(c Case) bool {
+		f := filepath.Join(tmp, "c.json")
+		writeJSON(f, c)
+		return failsFile(f)
+	}
+	failsHere := func(c Case) bool {
 		v := p.Run(c)
 		return v.Violation && v.Known == "" && v.Discard == "" && (class == "" || v.Class == class)
 	}
-	if !fails(c) {
-		fmt.Fprintln(os.Stderr, "shrink: the input case does not fail")
+	if !failsSub(c) {
+		fmt.Fprintln(os.Stderr, "shrink: the input case does not fail in a fresh process")
 		return 2
 	}
 	steps := 0
@@ -695,13 +733,24 @@ func shrinkCmd(id string, p Prop, in, out string, args []string) int {
 			if !time.Now().Before(deadline) {
 				break
 			}
-			// work on a deep copy through JSON so that Run's bookkeeping cannot leak
-			b, _ := json.Marshal(cand)
+			b, _ := json.Marshal(cand) // deep copy, so that Run's bookkeeping cannot leak
 			cc, err := p.Decode(b)
 			if err != nil {
 				continue
 			}
-			if fails(cc) {
+			ok := false
+			if subOnly {
+				ok = failsSub(cc)
+			} else if failsHere(cc) {
+				cc2, _ := p.Decode(b)
+				if failsSub(cc2) {
+					ok = true
+					cc = cc2
+				} else {
+					subOnly = true // this process is tainted by an earlier failing run
+				}
+			}
+			if ok {
 				c = cc
 				progress = true
 				steps++
@@ -712,7 +761,7 @@ func shrinkCmd(id string, p Prop, in, out string, args []string) int {
 			break
 		}
 	}
-	fmt.Printf("shrink: %d successful reductions, %d executions\n", steps, n)
+	fmt.Printf("shrink: %d successful reductions, %d fresh-process executions, per-candidate processes=%v\n", steps, n, subOnly)
 	writeJSON(out, c)
 	return 0
 }
